@@ -133,6 +133,7 @@ typedef struct model {
 	unsigned seen[NS];   /* ping/data letters already sent for this slot since the last VACK (repeats are duplicates) */
 	int check_ip;
 	int nv;              /* version requests sent so far (selects the forced challenge) */
+	int fed[NS];         /* since the slot's last VACK something was offered for its tunnel address: a packet on the server's tun, or an upstream packet of another session addressed to it */
 	int lastdatalen[NS]; unsigned char lastdata[NS][400];      /* the slot's latest data query as sent from its bound address (C04: replayed verbatim by others) */
 } model;
 static model M;
@@ -304,6 +305,8 @@ static int apply(int li)
 	}
 	/* what is SENT (one-directional C03 model): recorded before the server reacts, because the reaction to the very
 	 * same datagram (e.g. a queued tun packet flushed in raw mode right after the raw login) already counts */
+	if (L->kind == L_TUN && L->u >= 0 && L->u < NS) M.fed[L->u] = 1;
+	if ((L->kind == L_DATA || L->kind == L_RAWDATA) && L->arg >= 0 && L->arg < NS) M.fed[L->arg] = 1;
 	if (L->kind == L_LOGIN && L->arg == HK_CUR && u < NS && M.alloc[u]) M.authed[u] = 1;
 	if (L->kind == L_RAWLOGIN && L->arg == RK_PLUS1 && u < NS && M.alloc[u] && M.authed[u]) M.rawed[u] = 1;
 	if (L->src >= 0) {
@@ -381,7 +384,7 @@ static int apply(int li)
 						if (is04 && M.alloc[v] && !(M.lo[v] + 60 < t_now))
 							viol("slot-taken-over-while-active", "VACK after %s hands out slot %d whose session was last active %ld s ago", L->name, v, t_now - M.lo[v]);
 						if (M.alloc[v]) { M.prev[v] = M.cur[v]; M.hasprev[v] = 1; }
-						M.alloc[v] = 1; M.cur[v] = seed; M.authed[v] = M.logged[v] = M.rawed[v] = M.rawok[v] = 0; M.codec[v] = 5; M.lastdatalen[v] = 0;
+						M.alloc[v] = 1; M.cur[v] = seed; M.authed[v] = M.logged[v] = M.rawed[v] = M.rawok[v] = 0; M.codec[v] = 5; M.lastdatalen[v] = 0; M.fed[v] = 0;
 						memcpy(&M.bound[v], &o->dst, sizeof M.bound[v]); M.boundset[v] = 1; M.lo[v] = M.hi[v] = t_now; M.seen[v] = 0;
 						get_setts(v, &before[v]);      /* a new session legitimately resets the slot's settings */
 					}
@@ -427,6 +430,15 @@ static int apply(int li)
 						int ok = qs >= 0 && qs < NS && M.authed[qs];
 						if (is03 && !ok) viol("tunnel-data-sent-to-session-without-login", "server sent %d payload bytes to slot %d (%s) after %s", n - 2, qs, vw_addr_str(&o->dst), L->name);
 						if (ok) xp_count(K_PRIV, 1);
+						/* C04: tunnel data reaches a session only if something was addressed to it since it got its slot */
+						if (is04) {
+							/* the recipient by address (an answer to a held query does not answer this letter's command); judged
+							 * only when exactly one slot is bound to that address */
+							int rcp = -1, nr = 0;
+							for (int v = 0; v < NS; v++) if (M.alloc[v] && M.boundset[v] && vw_addr_eq(&o->dst, &M.bound[v])) { rcp = v; nr++; }
+							if (nr == 1 && !M.fed[rcp])
+								viol("tunnel-data-from-before-the-session", "%s: %d payload bytes were sent to slot %d (%s) although nothing has been addressed to its tunnel address since the slot was handed out", L->name, n - 2, rcp, vw_addr_str(&o->dst));
+						}
 					}
 				}
 				break;
@@ -517,10 +529,11 @@ static void key(uint64_t k[2])
 static const char *lname(int l) { return LT[l].name; }
 
 /* ---------------------------------------------------------------- start states */
-#define NSTART 8
+#define NSTART 9
 static const char *START_DESC[2][NSTART] = {
-	{ "fresh server, source check on", "fresh server, source check off (-c)", "A logged in on slot 0, source check on", "A and B logged in, source check off (-c)", "A logged in on slot 0, lazy mode with a ping held by the server, source check on", "as before, but A talks from an IPv6 address that shares its first 32 bits with the third party C6", "A logged in (as start state 2) with the server's tunnel address in the middle of the pool (10.0.0.2: sessions get .1 and .3)", "A logged in and switched to raw mode, source check on" },
-	{ "fresh server", "A on slot 0 and B on slot 1 logged in", "A and B logged in, then A silent for 55 s while B pinged", "A logged in and switched to raw mode, B logged in", "A and B logged in, A in lazy mode with a ping held by the server", "as before, but A talks from an IPv6 address that shares its first 32 bits with the third party C6", "A and B logged in, the server's tunnel address in the middle of the pool (10.0.0.2: sessions get .1 and .3)", "A (raw mode) and B logged in, then A silent for 55 s while B pinged" } };
+	{ "fresh server, source check on", "fresh server, source check off (-c)", "A logged in on slot 0, source check on", "A and B logged in, source check off (-c)", "A logged in on slot 0, lazy mode with a ping held by the server, source check on", "as before, but A talks from an IPv6 address that shares its first 32 bits with the third party C6", "A logged in (as start state 2) with the server's tunnel address in the middle of the pool (10.0.0.2: sessions get .1 and .3)", "A logged in and switched to raw mode, source check on", "A logged in on slot 0, source check on (as start state 2)" },
+	{ "fresh server", "A on slot 0 and B on slot 1 logged in", "A and B logged in, then A silent for 55 s while B pinged", "A logged in and switched to raw mode, B logged in", "A and B logged in, A in lazy mode with a ping held by the server", "as before, but A talks from an IPv6 address that shares its first 32 bits with the third party C6", "A and B logged in, the server's tunnel address in the middle of the pool (10.0.0.2: sessions get .1 and .3)", "A (raw mode) and B logged in, then A silent for 55 s while B pinged",
+	  "A and B logged in, two packets for A arrived on the tun (one in flight, one queued), then A silent for 55 s while B pinged" } };
 
 static int find_letter(int kind, int src, int u, int arg)
 {
@@ -550,7 +563,7 @@ static void boot(int start)
 	if (!pristine) pristine = malloc(sizeof *pristine * s_w_created_users());
 	memcpy(pristine, s_w_users(), sizeof *pristine * s_w_created_users());
 	if (is03) {
-		if (start >= 2) { pre(L_V, SRC_A, -1, 0); pre(L_LOGIN, SRC_A, 0, HK_CUR); }
+		if (start >= 2) { pre(L_V, SRC_A, -1, 0); pre(L_LOGIN, SRC_A, 0, HK_CUR); }      /* (start state 8 = 2: the table is shared with C04) */
 		if (start == 3) { pre(L_V, SRC_B, -1, 0); pre(L_LOGIN, SRC_B, 1, HK_CUR); }
 		if (start == 4 || start == 5) { pre(L_O, SRC_A, 0, 'l'); pre(L_P, SRC_A, 0, 0); }
 		if (start == 7) { pre(L_RAWLOGIN, SRC_A, 0, RK_PLUS1); }
@@ -560,6 +573,8 @@ static void boot(int start)
 		if (start == 3) { pre(L_RAWLOGIN, SRC_A, 0, RK_PLUS1); }
 		if (start == 4 || start == 5) { pre(L_O, SRC_A, 0, 'l'); pre(L_P, SRC_A, 0, 0); }
 		if (start == 7) { pre(L_RAWLOGIN, SRC_A, 0, RK_PLUS1); pre(L_TIME, -1, -1, 55); pre(L_P, SRC_B, 1, 0); }
+		/* undelivered downstream data of a session that then dies: whoever gets its slot (and tunnel address) next must not be sent it (seeded C04-i) */
+		if (start == 8) { pre(L_TUN, -1, 0, 0); pre(L_TUN, -1, 0, 0); pre(L_TIME, -1, -1, 55); pre(L_P, SRC_B, 1, 0); }
 	}
 }
 
